@@ -1,12 +1,21 @@
-"""GenTimer.v: width of long (timer ids), clock.c unit constants (measured), periods of the periodic services."""
+"""GenTimer.v: width of long (timer ids), clock.c unit constants (measured), periods of the periodic services, and the
+PRNG stir schedule of random.c measured by running random_init / _random_stir_entropy (timer_stir_probe.c)."""
 import os, re, subprocess
 def gen(api):
     clock = os.path.join(api.REPO, "src/munged/clock.c")
     rnd = os.path.join(api.REPO, "src/munged/random.c")
     r = subprocess.run(["gcc", "-E", "-dM"] + api.DEFS + api.INCS + [rnd], capture_output=True, text=True)
-    m = re.search(r"^#define RANDOM_STIR_MAX_SECS\s+(.+)$", r.stdout, re.M)
-    if r.returncode != 0 or not m:
-        raise api.GenError("RANDOM_STIR_MAX_SECS not found in random.c: " + r.stderr[-500:])
+    macros = {}
+    for name in ("RANDOM_STIR_MAX_SECS", "RANDOM_BYTES_WANTED", "RANDOM_SEED_BYTES"):
+        m = re.search(r"^#define %s\s+(.+)$" % name, r.stdout, re.M)
+        if r.returncode != 0 or not m:
+            raise api.GenError("%s not found in random.c: %s" % (name, r.stderr[-500:]))
+        macros[name] = m.group(1).strip()
     out = api.run_probe("timer_probe.c", extra_srcs=[clock],
-                        libs=["-Wl,--wrap=clock_gettime", "-DPROBE_STIR_MAX_SECS=(%s)" % m.group(1).strip()])
-    return api.write_gen("GenTimer.v", out)
+                        libs=["-Wl,--wrap=clock_gettime", "-DPROBE_STIR_MAX_SECS=(%s)" % macros["RANDOM_STIR_MAX_SECS"]])
+    stir = api.run_probe("timer_stir_probe.c",
+                         libs=["-DPROBE_STIR_MAX_SECS=(%s)" % macros["RANDOM_STIR_MAX_SECS"],
+                               "-DPROBE_WANTED=(%s)" % macros["RANDOM_BYTES_WANTED"],
+                               "-DPROBE_SEED_BYTES=(%s)" % macros["RANDOM_SEED_BYTES"], "-lcrypto"])
+    out = out.replace("From Coq Require Import ZArith.\n", "From Coq Require Import ZArith List.\nImport ListNotations.\n")
+    return api.write_gen("GenTimer.v", out + stir)
